@@ -228,31 +228,38 @@ func TextMatches(pattern string, nums []float64, got string) bool {
 		return pattern == got
 	}
 	parts := strings.Split(pattern, numMark)
-	// parts alternate: literal, index, literal, index, …, literal
-	var re strings.Builder
-	re.WriteString("^")
-	for i, p := range parts {
-		if i%2 == 0 {
-			re.WriteString(regexp.QuoteMeta(p))
-		} else {
-			re.WriteString(`([-+]?(?:[0-9][0-9.]*(?:[eE][-+]?[0-9]+)?|Inf|NaN|inf|nan|Infinity|∞))`)
+	// parts alternate: literal, index, literal, index, …, literal. Two numbers may follow each other
+	// without a separator, so every way of cutting the observed text is tried.
+	var match func(pi int, rest string) bool
+	match = func(pi int, rest string) bool {
+		if pi == len(parts) {
+			return rest == ""
 		}
-	}
-	re.WriteString("$")
-	rx, err := regexp.Compile(re.String())
-	if err != nil {
-		return false
-	}
-	mt := rx.FindStringSubmatch(got)
-	if mt == nil {
-		return false
-	}
-	for i, x := range nums {
-		if !CheckNumberText(x, mt[i+1]) {
+		if pi%2 == 0 {
+			if !strings.HasPrefix(rest, parts[pi]) {
+				return false
+			}
+			return match(pi+1, rest[len(parts[pi]):])
+		}
+		idx, err := strconv.Atoi(parts[pi])
+		if err != nil || idx >= len(nums) {
 			return false
 		}
+		for n := 1; n <= len(rest) && n <= 40; n++ {
+			if !numeralByte(rest[n-1]) {
+				break
+			}
+			if CheckNumberText(nums[idx], rest[:n]) && match(pi+1, rest[n:]) {
+				return true
+			}
+		}
+		return false
 	}
-	return true
+	return match(0, got)
+}
+
+func numeralByte(c byte) bool {
+	return c >= '0' && c <= '9' || c == '.' || c == '-' || c == '+' || c == 'e' || c == 'E' || c == 'I' || c == 'n' || c == 'f' || c == 'N' || c == 'a'
 }
 
 func (m *Machine) fail(err error, s *hast.Stmt) Outcome {
